@@ -6,6 +6,7 @@ CONSTANTS
   MaxPend = 3
   Horizon = 4
   HeadCheck = TRUE
+  MaxHold = 0
   ExportOn = TRUE
   SampleMod = 20
   MaxAnn = 6
